@@ -61,6 +61,7 @@ class Gen:
         self.probes = []        # (step, dirty_at_first)
         self.ntag = 0
         self.spec_of = {}       # slot -> constructor spec
+        self.frd_omega = {}     # FRD slot -> (argument expression, values) of its frequency vector
 
     # ---------------------------------------------------------------- pool
     def fresh(self, prefix):
@@ -368,17 +369,87 @@ class Gen:
         self.emit(["op", r, "TransferFunction", [ref(sn), ref(sd)], {}])
         return r
 
-    def new_frd(self):
+    # frequency vectors as a caller may hold them.  The FRD constructor keeps the vector it is given
+    # (measurements listed from high to low frequency, or in the order they were taken, are legal
+    # FRD objects), and every function that takes `omega` accepts any order: an in-place sort /
+    # unique / reversal of such a vector is a no-op on an increasing one, so increasing vectors
+    # alone cannot show it
+    FREQ_ORDERS = ["asc", "asc", "desc", "desc", "shuf"]
+    FREQ_HOLD = ["lit", "lit", "arr", "arr", "view", "list", "int"]
+
+    def freq_vals(self, n=None, order=None, ints=False):
         rng = self.rng
-        n = rng.choice([3, 4, 5])
-        omega = sorted(rng.sample([0.1, 0.5, 1.0, 2.0, 3.0, 5.0, 10.0], n))
-        data = [float(rng.randint(-3, 3)) or 1.0 for _ in range(n)]
-        if rng.random() < 0.5:
-            om = ref(self.new_arr((n,), omega))
+        n = n or rng.choice([3, 4, 5])
+        grid = [1.0, 2.0, 3.0, 5.0, 10.0, 20.0, 50.0] if ints else [0.1, 0.5, 1.0, 2.0, 3.0, 5.0, 10.0]
+        om = sorted(rng.sample(grid, n))
+        order = order or rng.choice(self.FREQ_ORDERS)
+        if order == "desc":
+            om.reverse()
+        elif order == "shuf":
+            asc, desc = list(om), list(reversed(om))
+            for _ in range(8):
+                rng.shuffle(om)
+                if om != asc and om != desc:
+                    break
+            else:
+                om = [asc[1], asc[0]] + asc[2:]
+        return om
+
+    def freq_vec(self, n=None, order=None, hold=None, vals=None):
+        """(argument expression, values) of a frequency vector: increasing, decreasing or in no
+        order; a literal list, a float array, a view with guard cells on both sides, a caller-owned
+        list or an integer array"""
+        rng = self.rng
+        hold = hold or rng.choice(self.FREQ_HOLD)
+        om = list(vals) if vals is not None else self.freq_vals(n, order, ints=hold == "int")
+        if hold == "int" and not all(float(v).is_integer() for v in om):
+            hold = "arr"
+        if hold == "lit":
+            return list(om), om
+        if hold == "list":
+            return ref(self.new_list(list(om))), om
+        if hold == "int":
+            return ref(self.new_arr((len(om),), om, dtype="int64", plain=True)), om
+        if hold == "view":
+            return ref(self.new_view((len(om),), om)), om
+        return ref(self.new_arr((len(om),), om, plain=True)), om
+
+    def new_frd(self, order=None, hold=None, p=1, m=1, smooth=None, name=None, omega=None):
+        """FRD from response data and a frequency vector (SISO: 1-D data, MIMO: p x m x n data,
+        row- or column-major); the frequency vector in any order (see `freq_vec`), or (`omega`) an
+        argument expression another FRD was built from (two systems on one caller-owned grid)"""
+        rng = self.rng
+        if omega is not None:
+            om, vals = omega
         else:
-            om = omega
-        d = ref(self.new_arr((n,), data)) if rng.random() < 0.4 else data
-        s = self.new("frd", {"data": d, "omega": om}, {"p": 1, "m": 1, "dt": "C", "omega": omega}, "f")
+            om, vals = self.freq_vec(order=order, hold=hold)
+        n = len(vals)
+        if (p, m) == (1, 1):
+            data = [float(rng.randint(-3, 3)) or 1.0 for _ in range(n)]
+            d = ref(self.new_arr((n,), data)) if rng.random() < 0.4 else data
+        else:
+            data = [[[float(rng.randint(-3, 3)) or 1.0 for _ in range(n)] for _ in range(m)] for _ in range(p)]
+            if rng.random() < 0.5:
+                spec = {"v": data, "dtype": "float64"}
+                if rng.random() < 0.4:
+                    spec["order"] = "F"
+                d = ref(self.new("arr", spec, {"shape": [p, m, n], "dtype": "float64"}, "a"))
+            else:
+                d = data
+        spec = {"data": d, "omega": om}
+        kw = {}
+        asc = vals == sorted(vals)
+        if smooth is None:
+            smooth = asc and rng.random() < 0.15
+        if smooth:
+            kw["smooth"] = True
+        if name or rng.random() < 0.2:
+            kw["name"] = name or self.fresh("F")
+        if kw:
+            spec["kw"] = kw
+        s = self.new("frd", spec, {"p": p, "m": m, "dt": "C", "omega": list(vals), "sorted": asc,
+                                   "name": kw.get("name")}, "f")
+        self.frd_omega[s] = (om, list(vals))
         return s
 
     def new_nl(self, static, kind=None):
@@ -416,21 +487,47 @@ class Gen:
             elif k == "tf":
                 s = self.new_tf(shape[0], shape[1], dt=ddt)
             elif k == "frd":
-                s = self.new_frd()
+                if siso is False or (siso is None and self.rng.random() < 0.15):
+                    s = self.new_frd(p=2, m=2)
+                else:
+                    s = self.new_frd()
             else:
                 s = self.new_nl(k == "nls", kind=k)
         return s
 
     def partner(self, a):
-        """a system compatible with `a` for + - (same shape, compatible kind / timebase mostly)"""
+        """a system compatible with `a` for + - (same shape, compatible kind / timebase mostly).
+        An FRD gets a TransferFunction / StateSpace partner half of the time (the FRD operators
+        re-sample the other operand on their own frequency grid), another FRD on the *same*
+        caller-owned grid, another FRD from the pool or itself otherwise; a TransferFunction /
+        StateSpace gets an FRD partner now and then"""
         da = self.desc[a]
         rng = self.rng
-        kinds = ("frd",) if da["k"] == "frd" else ("ss", "tf")
-        c = self.slots(lambda d: d["k"] in kinds and (d["p"], d["m"]) == (da["p"], da["m"]))
+        shape = (da["p"], da["m"])
+        if da["k"] == "frd":
+            r = rng.random()
+            if r < 0.5:
+                c = self.slots(lambda d: d["k"] in ("ss", "tf") and (d["p"], d["m"]) == shape
+                               and d["dt"] in ("C", "N"))
+                if c and rng.random() < 0.6:
+                    return rng.choice(c)
+                dt = rng.choice(["C", "C", "N"])
+                return self.new_ss(shape[0], shape[1], dt=dt) if rng.random() < 0.5 else \
+                    self.new_tf(shape[0], shape[1], dt=dt)
+            if r < 0.7 and a in self.frd_omega:
+                return self.new_frd(p=shape[0], m=shape[1], omega=self.frd_omega[a])
+            c = self.slots(lambda d: d["k"] == "frd" and (d["p"], d["m"]) == shape)
+            return rng.choice(c) if c and r < 0.9 else a
+        if rng.random() < 0.12 and da["dt"] in ("C", "N"):
+            c = self.slots(lambda d: d["k"] == "frd" and (d["p"], d["m"]) == shape)
+            if c:
+                return rng.choice(c)
+            if shape == (1, 1) or rng.random() < 0.5:
+                return self.new_frd(p=shape[0], m=shape[1])
+        kinds = ("ss", "tf")
+        c = self.slots(lambda d: d["k"] in kinds and (d["p"], d["m"]) == shape)
         if c and rng.random() < 0.8:
             return rng.choice(c)
-        if da["k"] == "frd":
-            return a
         dt = da["dt"] if rng.random() < 0.7 else None
         return self.new_ss(da["p"], da["m"], dt=dt) if rng.random() < 0.5 else self.new_tf(da["p"], da["m"], dt=dt)
 
@@ -439,8 +536,13 @@ class Gen:
         k = da["k"]
         if b is not None and b in self.desc and self.desc[b]["k"] == "ss" and k == "tf":
             k = "ss"
-        return {"k": k, "p": da["p"] if p is None else p, "m": da["m"] if m is None else m,
-                "dt": da["dt"], "n": da.get("n", 1)}
+        d = {"k": k, "p": da["p"] if p is None else p, "m": da["m"] if m is None else m,
+             "dt": da["dt"], "n": da.get("n", 1)}
+        fr = da if k == "frd" else (self.desc[b] if b is not None and b in self.desc and self.desc[b]["k"] == "frd" else None)
+        if fr is not None:
+            d["k"] = "frd"
+            d["omega"] = list(fr.get("omega") or [0.1, 1.0, 10.0])
+        return d
 
     def time_vec(self, dt=None):
         n = self.rng.choice([3, 5, 6])
@@ -486,6 +588,18 @@ class Gen:
         self.emit(["op", self.out(desc), op, args, {}])
 
     def op_div(self):
+        rng = self.rng
+        if rng.random() < 0.3:             # a quotient with an FRD on either side
+            a = self.sys_any(("frd",), siso=True)
+            r = rng.random()
+            if r < 0.7:
+                b = self.partner(a)
+                args = [ref(a), ref(b)] if rng.random() < 0.6 else [ref(b), ref(a)]
+            else:
+                c = rng.choice([2, 2.0, 0.5, 1, 1.0, -1])
+                args = [ref(a), c] if rng.random() < 0.5 else [c, ref(a)]
+            self.emit(["op", self.out(self.res_desc(a)), "div", args, {}])
+            return
         a = self.sys_any(("tf", "ss"), siso=True)
         if self.rng.random() < 0.5:
             b = self.sys_any(("tf",), siso=True)
@@ -511,6 +625,14 @@ class Gen:
     def op_append(self):
         rng = self.rng
         # timebases chosen to differ often: None / True against a sampling time
+        if rng.random() < 0.15:           # FRD.append / append(FRD, ...): the other operand is re-sampled
+            a = self.sys_any(("frd",))
+            da = self.desc[a]
+            b = self.partner(a) if rng.random() < 0.6 else self.sys_any(("ss", "tf"), dt=("C", "N"))
+            db = self.desc[b]
+            self.emit(["op", self.out(self.res_desc(a, p=da["p"] + db["p"], m=da["m"] + db["m"])),
+                       rng.choice(["m_append", "append"]), [ref(a), ref(b)], {}])
+            return
         a = self.sys_any(("ss", "tf"), dt=rng.choice([None, None, ("N", "T"), ("N",), ("C",)]))
         da = self.desc[a]
         kinds = ("ss", "tf") if da["k"] == "ss" else ("tf",)
@@ -697,10 +819,15 @@ class Gen:
             d = self.res_desc(a); d["k"] = "ss"; d["n"] = 2
             self.emit(["op", self.out(d), fn, [ref(a)], kw])
         elif fn == "frd":
+            if rng.random() < 0.2:         # frd(F): the copy constructor (shares the arrays of F)
+                a = self.sys_any(("frd",))
+                self.emit(["op", self.out(dict(self.desc[a])), "frd", [ref(a)], {}])
+                return
             a = self.sys_any(("ss", "tf"))
-            omega = [0.1, 1.0, 10.0]
-            om = ref(self.new_arr((3,), omega)) if rng.random() < 0.6 else omega
-            d = self.res_desc(a); d["k"] = "frd"; d["omega"] = omega
+            om, omega = self.freq_vec()
+            d = self.res_desc(a); d["k"] = "frd"; d["omega"] = sorted(omega)
+            if rng.random() < 0.2:
+                kw["smooth"] = True
             self.emit(["op", self.out(d), "frd", [ref(a), om], kw])
         elif fn == "nlsys_of":
             a = self.sys_any(("ss",))
@@ -733,14 +860,23 @@ class Gen:
                          "m_poles", "zeros", "m_zeros", "damp", "m_damp", "isctime", "m_isctime", "issiso",
                          "m_issiso", "m_scipy", "str", "repr", "latex", "str", "repr"])
         if fn in ("m_call", "evalfr"):
-            a = self.sys_any(("ss", "tf"))
+            a = self.sys_any(("ss", "tf", "frd"))
             x = rng.choice([1.0, {"cplx": [0.0, 1.0]}, {"cplx": [0.5, 2.0]}, 0])
+            if self.desc[a]["k"] == "frd":
+                x = {"cplx": [0.0, rng.choice(self.desc[a].get("omega") or [1.0])]}
             self.emit(["op", None, fn, [ref(a), x], {}])
         elif fn in ("m_freqresp", "frequency_response"):
             a = self.sys_any(("ss", "tf", "frd"))
             da = self.desc[a]
-            omega = da["omega"][:2] if da["k"] == "frd" and "omega" in da else [0.1, 1.0, 10.0]
-            om = ref(self.new_arr((len(omega),), omega)) if rng.random() < 0.6 else omega
+            if da["k"] == "frd" and "omega" in da:      # an FRD is evaluated at (some of) its own frequencies
+                omega = list(da["omega"])
+                if rng.random() < 0.5:
+                    omega = omega[:2]
+                elif rng.random() < 0.5:
+                    rng.shuffle(omega)
+                om, omega = self.freq_vec(vals=omega)
+            else:
+                om, omega = self.freq_vec()
             kw = {"squeeze": rng.choice([True, False])} if fn == "frequency_response" and rng.random() < 0.3 else {}
             self.emit(["op", self.out({"k": "resp", "rk": "freq"}), fn, [ref(a), om], kw])
         elif fn in ("str", "repr", "latex"):
@@ -1138,7 +1274,10 @@ class Gen:
         self.emit(["op", None, rng.choice(["m_plot", "m_plot", "time_response_plot"]), args, kw])
 
     def omega_arg(self):
-        om = [0.1, 1.0, 10.0] if self.rng.random() < 0.6 else [0.05, 0.2, 0.8, 3.0, 12.0]
+        r = self.rng.random()
+        if r < 0.35:
+            return self.freq_vec()[0]      # any order, any holder
+        om = [0.1, 1.0, 10.0] if r < 0.75 else [0.05, 0.2, 0.8, 3.0, 12.0]
         return ref(self.new_arr((len(om),), om)) if self.rng.random() < 0.7 else om
 
     def plot_freq(self):
@@ -1229,6 +1368,8 @@ class Gen:
             self.emit(["op", None, "m_plot", [ref(out)], kw])
         elif kind in ("rlocus", "rlmap"):
             g = [0.1, 1.0, 5.0, 20.0]
+            if rng.random() < 0.3:
+                g = rng.choice([[20.0, 5.0, 1.0, 0.1], [1.0, 20.0, 0.1, 5.0]])
             args = [ref(a)] + ([ref(self.new_arr((4,), g)) if rng.random() < 0.7 else g] if rng.random() < 0.6 else [])
             if kind == "rlocus":
                 if rng.random() < 0.3:
@@ -1347,6 +1488,8 @@ class Gen:
             A = [0.5, 1.0, 1.5, 2.0, 4.0][:rng.choice([2, 3, 5])]
             if rng.random() < 0.3:
                 A = A[1:]
+            if rng.random() < 0.3:        # amplitudes from large to small / in no order
+                A = list(reversed(A)) if rng.random() < 0.6 else A[1:] + A[:1]
             arg = ref(self.new_arr((len(A),), A)) if rng.random() < 0.8 else A
             self.emit(["op", None, fn, [rng.choice(["sat", "relay", "backlash"]), rng.choice([1.0, 0.5]), arg],
                        {"num_points": 50} if rng.random() < 0.3 else {}])
@@ -1354,6 +1497,8 @@ class Gen:
             w = [0.1, 0.5, 1.0, 2.0, 5.0, 10.0]
             mag = [round(4.0 / (1 + x * x), 6) for x in w]
             ph = [round(-1.5 * x, 6) for x in w]
+            if rng.random() < 0.3:        # measurements listed from high to low frequency
+                w, mag, ph = w[::-1], mag[::-1], ph[::-1]
             self.emit(["op", None, fn, [ref(self.new_arr((6,), mag)), ref(self.new_arr((6,), ph)),
                                         ref(self.new_arr((6,), w))], {}])
         elif fn in ("lti_dynamics", "lti_output"):
@@ -2009,7 +2154,7 @@ def sweep_identity(rng, tier):
         elif kind == "tf":
             S = g.new_tf(p, m, name=g.fresh("G") if rng.random() < 0.5 else None)
         elif kind == "frd":
-            S = g.new_frd()
+            S = g.new_frd(order="asc", smooth=False)
         else:
             S = g.new_nl(kind == "nls", kind=kind)
         head = list(g.steps)
@@ -2255,10 +2400,188 @@ def sweep_layout(rng, tier):
     return cases
 
 
+# (order of the frequency vector, how the caller holds it, outputs, inputs, how the FRD is obtained)
+FRD_SOURCES = [("desc", "arr", 1, 1, "new"), ("shuf", "lit", 1, 1, "new"), ("desc", "view", 1, 1, "new"),
+               ("shuf", "int", 1, 1, "new"), ("desc", "arr", 2, 2, "new"), ("shuf", "list", 2, 2, "new"),
+               ("desc", "arr", 1, 1, "copy"), ("shuf", "arr", 1, 1, "result"), ("asc", "arr", 1, 1, "new"),
+               ("asc", "view", 1, 1, "smooth")]
+
+
+def frd_operations(g, S, d, tier):
+    """operations that *read* an FRD S (p x m) given on the frequency vector `d["omega"]`: every
+    binary operator / block-diagram function with a TransferFunction, a StateSpace system, a
+    second FRD built on the same caller-owned frequency vector, S itself, scalars and arrays as the
+    other operand, in both orders; evaluations at its own frequencies; conversions, copies, powers,
+    indexing, responses, margins, printing.  None of them may change S, the arrays it was built
+    from, its partners or an earlier result.  Entries: (opname, args, kw, keep result?)"""
+    rng = g.rng
+    p, m, om, w_arg = d["p"], d["m"], d["omega"], d["w_arg"]
+    siso = (p, m) == (1, 1)
+    R = ref(S)
+    Q = []
+
+    def add(op, args, kw=None, out=None):
+        Q.append((op, args, kw or {}, out))
+
+    G = ref(g.new_tf(p, m, dt="C", name=g.fresh("G") if rng.random() < 0.5 else None))
+    P = ref(g.new_ss(p, m, dt=rng.choice(["C", "N"])))
+    F2 = ref(g.new_frd(p=p, m=m, omega=(w_arg, om), smooth=False))
+    lti = []            # the class the FRD operators re-sample on their own grid
+    for b in (G, P):
+        for op in ("add", "sub", "mul", "div", "feedback", "m_feedback", "series", "parallel", "append", "m_append"):
+            lti.append((op, [R, b], {}, "res"))
+            lti.append((op, [b, R], {}, "res"))
+        lti.append(("sum", [{"lst": [b, R]}], {}, "res"))
+        lti.append(("sum", [{"lst": [R, b]}, b], {}, "res"))
+    lti.append(("gangof4_response", [R, G], {}, None))
+    lti.append(("gangof4_response", [G, R], {}, None))
+    lti.append(("feedback", [R, G, 1], {"name": g.fresh("FB")}, "res"))
+    lti.append(("series", [G, R, P], {}, "res"))
+    lti.append(("parallel", [R, G, P], {"name": g.fresh("Q")}, "res"))
+    for b in (F2, R):
+        for op in ("add", "sub", "mul", "div", "feedback", "series", "parallel", "m_append"):
+            add(op, [R, b], out="res")
+        add("add", [b, R], out="res"); add("mul", [b, R], out="res")
+    for c in (2, 1, 0.5):
+        for op in ("add", "mul", "div", "feedback", "parallel", "series"):
+            add(op, [R, c], out="res"); add(op, [c, R], out="res")
+    add("add", [R, ref(g.new_arr((p, m), plain=True))], out="res")
+    add("mul", [ref(g.new_arr((p, p), plain=True)), R], out="res")
+    add("mul", [R, ref(g.new_arr((m, m), plain=True))], out="res")
+    for fn in ("neg", "m_copy", "frd"):
+        add(fn, [R], out="res")
+    for fn in ("str", "repr", "m_isctime", "m_issiso", "isctime", "singular_values_response"):
+        add(fn, [R])
+    for w in om[:2]:
+        add("evalfr", [R, {"cplx": [0.0, w]}]); add("m_call", [R, {"cplx": [0.0, w]}])
+    add("m_freqresp", [R, copy.deepcopy(w_arg)])        # at its own frequencies: the very vector it was built from
+    add("frequency_response", [R, list(reversed(om))])
+    add("frequency_response", [R, None])
+    add("m_freqresp", [R, g.freq_vec(vals=om[1:] + om[:1], hold=rng.choice(["arr", "list", "view"]))[0]])
+    add("frequency_response", [{"lst": [R, G]}, copy.deepcopy(w_arg)])
+    add("pow", [R, 2], out="res"); add("pow", [R, -1], out="res"); add("pow", [R, 0], out="res")
+    if siso:
+        for fn in ("stability_margins", "margin", "nyquist_response", "bandwidth"):
+            add(fn, [R])
+    else:
+        add("getitem", [R, 0, 1], out="res"); add("getitem", [R, 1, 0], out="res")
+    plots = [("bode_plot", [{"lst": [R, G]}], {}, None), ("bode_plot", [R], {}, None)]
+    if siso:
+        plots += [("nyquist_plot", [R], {}, None), ("nichols_plot", [R], {}, None)]
+    else:
+        plots += [("singular_values_plot", [R], {}, None)]
+    return lti, Q, plots
+
+
+def omega_functions(g, w, om, tier):
+    """every function that takes a frequency vector (or another vector with a natural order),
+    applied to the one caller-owned vector `w`"""
+    rng = g.rng
+    G = ref(g.new_tf(1, 1, dt="C"))
+    P = ref(g.new_ss(1, 1, dt="C"))
+    M = ref(g.new_ss(2, 2, dt=rng.choice(["C", 0.1])))
+    n = len(om)
+    mag = ref(g.new_arr((n,), [round(4.0 / (1 + x * x), 6) for x in om], plain=True))
+    ph = ref(g.new_arr((n,), [round(-1.5 * x, 6) for x in om], plain=True))
+    W = lambda: copy.deepcopy(w)
+    Q = [("m_freqresp", [G, W()], {}, None), ("m_freqresp", [M, W()], {}, None),
+         ("frequency_response", [P, W()], {}, None), ("frequency_response", [{"lst": [G, P]}, W()], {}, None),
+         ("frequency_response", [M, W()], {"squeeze": False}, None),
+         ("frd", [G, W()], {}, "res"), ("frd", [M, W()], {}, "res"), ("frd", [P, W()], {"smooth": True}, "res"),
+         ("singular_values_response", [M, W()], {}, None), ("nyquist_response", [G, W()], {}, None),
+         ("gangof4_response", [G, P, W()], {}, None), ("describing_function", ["sat", 0.5, W()], {}, None),
+         ("root_locus_map", [G, W()], {}, None), ("margin_arrays", [mag, ph, W()], {}, None),
+         ("stability_margins_arrays", [mag, ph, W()], {}, None), ("unwrap", [W()], {}, None),
+         ("mag2db", [W()], {}, None), ("bode_plot", [rng.choice([G, P]), W()], {}, None)]
+    if tier != "quick":
+        Q += [("nyquist_plot", [G, W()], {}, None), ("nichols_plot", [P, W()], {}, None),
+              ("singular_values_plot", [M, W()], {}, None), ("bode_plot", [{"lst": [G, P]}], {"omega": W()}, None),
+              ("describing_function_plot", [G, "sat", 1.0, ref(g.new_arr((3,), [2.0, 1.0, 4.0], plain=True)), W()], {}, None)]
+    return Q
+
+
+def sweep_frd(rng, tier):
+    """frequency response data on frequency vectors that are *not* increasing (decreasing: measurements
+    listed from high to low frequency; no order at all), held by the caller as a literal list, a float
+    array, a view with guard cells, a list object or an integer array; SISO and 2x2 (3-D data); an FRD
+    obtained by the copy constructor (which shares the arrays of its source) or as the result of an
+    earlier operation; an increasing vector and an interpolating FRD as controls.  On each: every
+    binary operation with a partner of another kind (TransferFunction, StateSpace: the FRD operators
+    re-sample it on the FRD's own frequency vector) in both orders, with FRD partners on the same
+    vector, scalars and arrays, and every reading operation (`frd_operations`), in shuffled chunks,
+    each between two evaluations of two probes (value at a listed frequency; the printed table).
+    Second part: every function that takes a frequency vector, called with one caller-owned
+    vector in each order / holder (`omega_functions`)."""
+    cases = []
+    reps = 1 if tier == "quick" else 3
+    for rep in range(reps):
+        for order, hold, p, m, how in FRD_SOURCES:
+            g = Gen(rng, tier)
+            g.cur = g.steps
+            name = g.fresh("F") if rng.random() < 0.5 else None
+            if how in ("new", "smooth"):
+                S = g.new_frd(order=order, hold=hold, p=p, m=m, smooth=how == "smooth", name=name)
+                w_arg, om = g.frd_omega[S]
+            else:
+                S0 = g.new_frd(order=order, hold=hold, p=p, m=m, smooth=False, name=name)
+                w_arg, om = g.frd_omega[S0]
+                S = g.out(dict(g.desc[S0]))
+                if how == "copy":
+                    g.emit(["op", S, "frd", [ref(S0)], {}])
+                else:
+                    op, args = rng.choice([("neg", [ref(S0)]), ("mul", [ref(S0), 2.0]), ("mul", [2.0, ref(S0)]),
+                                           ("m_copy", [ref(S0)]), ("mul", [ref(S0), ref(S0)])])
+                    g.emit(["op", S, op, args, {}])
+            d = {"p": p, "m": m, "omega": list(om), "w_arg": w_arg}
+            head = list(g.steps)
+            lti, Q, plots = frd_operations(g, S, d, tier)
+            consts = g.steps[len(head):]
+            if tier == "quick":         # the mixed-kind operations always; a sample of the others
+                Q = rng.sample(Q, min(len(Q), 30))
+                plots = rng.sample(plots, 1) if rep == 0 and rng.random() < 0.5 else []
+            rest = lti + Q + plots
+            rng.shuffle(rest)
+            z = {"cplx": [0.0, om[0]]}
+            for i in range(0, len(rest), 10):
+                ch = rest[i:i + 10]
+                need = set(F.slots_in([q[1] for q in ch], []))
+                # constants and the slots they are built from (views: their base arrays)
+                keep, todo = set(), list(need)
+                while todo:
+                    x = todo.pop()
+                    if x in keep:
+                        continue
+                    keep.add(x)
+                    for st in consts:
+                        if st[1] == x:
+                            todo += F.slots_in(st[3], [])
+                g.steps = list(head) + [st for st in consts if st[1] in keep]
+                g.cur = g.steps
+                g.emit(["probe", "p1", "evalfr", [ref(S), z], {}])
+                g.emit(["probe", "p2", "str", [ref(S)], {}])
+                for op, args, kw, out in ch:
+                    g.emit(["op", None if out is None else g.out({"k": "res"}), op, copy.deepcopy(args), dict(kw)])
+                g.emit(["probe", "p1", "evalfr", [ref(S), z], {}])
+                g.emit(["probe", "p2", "str", [ref(S)], {}])
+                cases.append({"type": "hist", "hist": g.steps})
+        # functions that take a frequency vector
+        for order in ("desc", "shuf"):
+            for hold in ("arr", "view", "list", "int"):
+                g = Gen(rng, tier)
+                g.cur = g.steps
+                w, om = g.freq_vec(order=order, hold=hold)
+                Q = omega_functions(g, w, om, tier)
+                rng.shuffle(Q)
+                for op, args, kw, out in Q:
+                    g.emit(["op", None if out is None else g.out({"k": "res"}), op, args, dict(kw)])
+                cases.append({"type": "hist", "hist": g.steps})
+    return cases
+
+
 def generate(rng, tier):
     n = 700 if tier == "quick" else 6000
     return [gen_case(rng, tier) for _ in range(n)] + sweep_identity(rng, tier) + sweep_problem_history(rng, tier) \
-        + sweep_layout(rng, tier)
+        + sweep_layout(rng, tier) + sweep_frd(rng, tier)
 
 
 def corpus():
@@ -2395,6 +2718,34 @@ def corpus():
           ["op", "sd", "ssdata", [ref("S")], {}],
           ["op", None, "lyap", [{"item": ["sd", 0]}, [[1.0, 0.0, 0.0], [0.0, 1.0, 0.0], [0.0, 0.0, 1.0]]], {}],
           ["probe", "p1", "ssdata", [ref("TS")], {}], ["probe", "p2", "ssdata", [ref("S")], {}]),
+        # classes added after the fourth round of seeded changes (agree on the unchanged code):
+        # - frequency response data listed from high to low frequency (the constructor keeps the
+        #   vector as given) combined with a TransferFunction / StateSpace system in both orders (the
+        #   FRD operators re-sample the partner on the FRD's own frequency vector), a copy made by the
+        #   copy constructor (shares the arrays of F); F, its arrays, its value at a listed frequency
+        #   and its printed table must stay as they were
+        H(["new", "w", "arr", {"v": [100.0, 10.0, 1.0]}], ["new", "d", "arr", {"v": [0.01, 0.1, 1.0]}],
+          ["new", "F", "frd", {"data": ref("d"), "omega": ref("w"), "kw": {"name": "F"}}],
+          tf("G", [1.0], [1.0, 1.0], name="G"), ss("P", -2.0),
+          ["op", "Fc", "frd", [ref("F")], {}],
+          ["probe", "p1", "evalfr", [ref("F"), {"cplx": [0.0, 100.0]}], {}], ["probe", "p2", "str", [ref("F")], {}],
+          ["op", "r1", "mul", [ref("F"), ref("G")], {}], ["op", "r2", "add", [ref("G"), ref("F")], {}],
+          ["op", "r3", "div", [ref("F"), ref("P")], {}], ["op", "r4", "feedback", [ref("F"), ref("G")], {}],
+          ["op", "r5", "feedback", [ref("G"), ref("F")], {}], ["op", "r6", "m_append", [ref("F"), ref("P")], {}],
+          ["op", "r7", "sum", [{"lst": [ref("P"), ref("F"), ref("G")]}], {}],
+          ["op", "r8", "series", [ref("G"), ref("F"), ref("P")], {}], ["op", "r9", "sub", [ref("Fc"), ref("G")], {}],
+          ["probe", "p1", "evalfr", [ref("F"), {"cplx": [0.0, 100.0]}], {}], ["probe", "p2", "str", [ref("F")], {}]),
+        # - one caller-owned frequency vector in no particular order (a view with guard cells) given
+        #   to the functions that take a frequency vector
+        H(["new", "b", "arr", {"v": [9.0, 1.0, 10.0, 0.1, 5.0, 9.0]}],
+          ["new", "w", "view", {"base": ref("b"), "how": "slice", "off": [1], "shape": [4]}],
+          tf("G", [1.0], [1.0, 2.0, 1.0]), ss("P", -1.0),
+          ["op", "f1", "frd", [ref("G"), ref("w")], {}], ["op", None, "frequency_response", [ref("P"), ref("w")], {}],
+          ["op", None, "m_freqresp", [ref("G"), ref("w")], {}], ["op", None, "nyquist_response", [ref("G"), ref("w")], {}],
+          ["op", None, "singular_values_response", [ref("P"), ref("w")], {}],
+          ["op", None, "gangof4_response", [ref("G"), ref("P"), ref("w")], {}],
+          ["op", None, "describing_function", ["sat", 0.5, ref("w")], {}],
+          ["op", None, "bode_plot", [ref("G"), ref("w")], {}]),
     ] + systematic()
 
 
